@@ -5,8 +5,8 @@ import vlib
 import world_check as wk
 import world_common as wc
 
-MON = ["history", "store_immutable", "fault_reported", "no_error"]
-HIST = ["drain_history_first", "drain_history_offset"]
+MON = ["history", "position_not_ahead", "store_immutable", "fault_reported", "no_error"]
+HIST = ["drain_history_first", "drain_history_offset", "drain_history_19_25"]
 
 
 def known(meta, msg):
@@ -26,7 +26,7 @@ def main(rep):
         t, m = wc.gen_history_case(rng)
         cases.append(("h%d" % i, t, m))
     wk.standard_main(rep, cases=cases, monitors=MON, fault=True, only=HIST, known=known,
-                     fault_monitors=["history", "position_kept", "store_immutable", "fault_reported", "no_error"],
+                     fault_monitors=["history", "position_kept", "position_not_ahead", "store_immutable", "fault_reported", "no_error"],
                      rule=("append-only histories: appends of {0,1,10,60} bytes, passes, clock steps, restarts; after every pass the versions (ordered by "
                            "version and collision index) must concatenate to the file up to the remembered position; plus every single fault in the copy and "
                            "the position update of the two history scenarios, followed by restart and drain"))
